@@ -1057,7 +1057,13 @@ fn equal_qname(
     context: &model::Context,
 ) -> error::Result<bool> {
     if let Some((local_part_a, _, uri_a)) = node.as_expanded_name()? {
-        let (local_part_b, _, uri_b) = context.expanded_name(qname)?;
+        let (local_part_b, _, mut uri_b) = context.expanded_name(qname)?;
+        // the caller's default namespace is for element names only
+        if matches!(qname, nom::model::QName::Unprefixed(_))
+            && !matches!(node, dom::XmlNode::Element(_))
+        {
+            uri_b = None;
+        }
         Ok(local_part_a == local_part_b && uri_a == uri_b)
     } else {
         Ok(false)
